@@ -20,10 +20,15 @@ type c06Case struct {
 	CsumHdr bool   // send x-amz-checksum-<algo> header (non-trailer modes)
 	Corrupt string // "" = none
 	Arg     int    // corruption argument (offset, chunk index, ...)
+	Big     bool   // 9000-byte payload in chunks 4000/1/4999 (larger than what the HTTP server reads ahead with the header)
 }
 
 func (c c06Case) String() string {
-	return fmt.Sprintf("%s/%s/algo=%s/md5=%v/csumhdr=%v/%s(%d)", c.Op, c.Mode, c.Algo, c.MD5, c.CsumHdr, c.Corrupt, c.Arg)
+	big := ""
+	if c.Big {
+		big = "/9000-bytes"
+	}
+	return fmt.Sprintf("%s/%s/algo=%s/md5=%v/csumhdr=%v/%s(%d)%s", c.Op, c.Mode, c.Algo, c.MD5, c.CsumHdr, c.Corrupt, c.Arg, big)
 }
 
 // build renders the request; corrupted reports whether the corruption applied (some do not apply to a mode).
@@ -59,6 +64,14 @@ func (c c06Case) build(w *World, key string, payload []byte, sizes []int) (*gw.R
 	}
 	streaming := strings.HasPrefix(c.Mode, "stream-")
 	declared := len(payload)
+	if c.Corrupt == "truncate-at-data-end" || c.Corrupt == "flip-then-truncate-at-data-end" {
+		declared = 0
+		for i, ch := range gw.SplitChunks(payload, sizes) {
+			if i <= c.Arg {
+				declared += len(ch)
+			}
+		}
+	}
 	switch c.Corrupt {
 	case "declared-length-plus-1":
 		declared++
@@ -182,6 +195,18 @@ func (c c06Case) corruptStream(enc []byte, spans []gw.ChunkSpan, applied, hasTra
 		if c.Arg < len(spans)-1 || (!signed && c.Arg < len(spans)) {
 			return out[:spans[c.Arg].DataEnd+2], true
 		}
+	case "truncate-at-data-end", "flip-then-truncate-at-data-end":
+		// the stream ends with the last payload byte of data chunk Arg (no CRLF, no further chunk, no trailer)
+		nData := len(spans)
+		if signed {
+			nData-- // the final zero-length chunk is a span of its own
+		}
+		if c.Arg < nData && spans[c.Arg].DataEnd > spans[c.Arg].DataStart {
+			if c.Corrupt == "flip-then-truncate-at-data-end" {
+				out[spans[c.Arg].DataEnd-1] ^= 0x04
+			}
+			return out[:spans[c.Arg].DataEnd], true
+		}
 	case "truncate-inside-header":
 		if c.Arg < len(spans) {
 			return out[:spans[c.Arg].HeaderStart+1], true
@@ -209,6 +234,8 @@ func C06(r *ck.Run) {
 	}
 	payload := Pattern(15, 9)
 	sizes := []int{5, 1, 9}
+	bigPayload := Pattern(9000, 9)
+	bigSizes := []int{4000, 1, 4999}
 	algos := []string{"crc32", "sha256"}
 	if r.Thorough() {
 		algos = gw.ChecksumAlgos
@@ -252,6 +279,30 @@ func C06(r *ck.Run) {
 						add("truncate-after-chunk", ch)
 						add("truncate-inside-header", ch)
 						add("truncate-inside-data", ch)
+						add("truncate-at-data-end", ch)
+						add("flip-then-truncate-at-data-end", ch)
+					}
+					if strings.HasPrefix(mode, "stream-") && !v.MD5 {
+						addBig := func(corrupt string, arg int) {
+							c := v
+							c.Corrupt, c.Arg, c.Big = corrupt, arg, true
+							cases = append(cases, c)
+						}
+						addBig("", 0)
+						for _, k := range []string{"declared-length-plus-1", "declared-length-minus-1", "trailer-checksum", "trailer-signature", "truncate-final-crlf", "extra-garbage-after-final-chunk"} {
+							addBig(k, 0)
+						}
+						for ch := 0; ch < 4; ch++ {
+							addBig("chunk-signature", ch)
+							addBig("truncate-after-chunk", ch)
+							addBig("truncate-inside-header", ch)
+							addBig("truncate-inside-data", ch)
+							addBig("truncate-at-data-end", ch)
+							addBig("flip-then-truncate-at-data-end", ch)
+						}
+						addBig("bit-flip", 0)
+						addBig("bit-flip", 4000)
+						addBig("bit-flip", 8999)
 					}
 				}
 			}
@@ -284,6 +335,10 @@ func C06(r *ck.Run) {
 						continue
 					}
 					for fi := range frags {
+						payload, sizes := payload, sizes
+						if c.Big {
+							payload, sizes = bigPayload, bigSizes
+						}
 						req, applied := c.build(w, key, payload, sizes)
 						if !applied {
 							continue
@@ -303,7 +358,7 @@ func C06(r *ck.Run) {
 						after := w.F.G.Snapshot(gw.SnapOpts{IgnoreTmp: true})
 						diff := base.Diff(after, 6)
 						det := map[string]any{"config": fmt.Sprintf("%+v", cfg), "case": c.String(), "key": key, "fragmentation": req.Frags, "request": req.String(), "headers": req.Headers,
-							"body": string(req.Body), "response": resp.String(), "state_diff": diff}
+							"body": ck.Short(string(req.Body), 600), "response": resp.String(), "state_diff": diff}
 						state := "new-key"
 						if key != "c06new" {
 							state = "existing-key"
